@@ -40,6 +40,11 @@ def make_scratch(repo):
 
 def apply_entry(root, e):
     """Returns True if applied."""
+    if "patch" in e:
+        # a seeded change kept under /verif/seeded/<id>/patch.diff (DESIGN 13)
+        pf = os.path.join(VERIF, e["patch"])
+        r = subprocess.run(["patch", "-p1", "-s", "-f", "-d", root, "-i", pf], stdout=subprocess.PIPE, stderr=subprocess.STDOUT)
+        return r.returncode == 0
     edits = e.get("edits") or ([{"file": e["file"], "regex": e["regex"], "repl": e["repl"]}] if "regex" in e else
                               [{"file": e["file"], "old": e["old"], "new": e["new"]}])
     texts = {}
